@@ -80,11 +80,21 @@ def mon_c06(run, case):
         t_fail = fail_rec.get("fail_clk", 0)
         affected = [h for h in run.handovers if h["inv"] == k and h["sync"] and not orphan(h)
                     and (h["clk"] > t_fail or h.get("ret_clk", 10**12) > t_fail)]
+        accepted = {(e["upd"]["Id"], e["upd"]["Action"]) for e in b.log if e["inv"] == k}
         for h in affected:
-            if h["returned"]:
+            if not h["returned"]:
+                continue
+            u = h["upd"]
+            # outstanding at the failure but carried by an earlier, successful call: a legitimate success
+            if h["clk"] < t_fail and u is not None and (u["Id"], u["Action"]) in accepted:
+                continue
+            if h["clk"] < t_fail and u is None:
+                continue
+            if True:
                 run.v("C06", "sync_checkpoint_succeeded_after_failure", site,
                       f"invocation {k}: a synchronous checkpoint ({(h['upd'] or {}).get('Type')}:{(h['upd'] or {}).get('Action')}) outstanding at / issued after the failed call returned normally")
                 break
+        affected = [h for h in affected if not (h["clk"] < t_fail and h["returned"] and (h["upd"] is None or (h["upd"]["Id"], h["upd"]["Action"]) in accepted))]
         out = inv.get("outcome")
         if out in ("SUCCEEDED", "PENDING"):
             if affected:
@@ -245,14 +255,23 @@ def _sweep_stage(ctx):
                                                            "cfg": {"completion": {"min": None, "tol": 2, "pct": None}}}], 2, ["executor", "state"]),
         ("child{step}, wait; fault 1", [{"op": "child", "body": [_S(1)]}, {"op": "wait", "secs": 1}], 1, ["state", "threading"]),
     ]
+    # the failing call returns at the very instant a sleeping step body wakes up: the caller can be inside create_checkpoint
+    # while the batcher handles the failure (both task orders are swept)
+    bases += [
+        ("coincident: step(sleep .2), latency .1; fault 0", [_S(1, sleep=0.2)], 0, ["state"]),
+        ("coincident: step(sleep .2), step(sleep .3), latency .1; fault 1", [_S(1, sleep=0.2), _S(2, sleep=0.3)], 1, ["state", "threading"]),
+    ]
     for i, (label, body, api, line) in enumerate(bases):
         if ctx.nshards > 1 and i % ctx.nshards != ctx.shard % ctx.nshards:
             continue
         cls = sorted(FAULT_CLASSES)[i % len(FAULT_CLASSES)]
-        base = {"prog": {"body": body}, "backend": {"response": "delta"}, "plan": {"crashes": [], "faults": [{"inv": 0, "api": api, "class": cls, "when": "before"}]},
-                "line": line, "max_raises": 1}
-        WC.line_preempt_sweep(ctx, base, PROPS, nontrivial=nontrivial, classes=lambda r, c: ["one-long-preemption-at-a-line"] + classes(r, c), extra_monitors=(mon_c06,),
-                              limit=ctx.budget.get("sweep_limit", 700), label=f"one long preemption per line of {'/'.join(line)}: {label} ({cls})")
+        coincident = label.startswith("coincident")
+        base = {"prog": {"body": body}, "backend": {"response": "delta", "api_latency": 0.1 if coincident else 0.0},
+                "plan": {"crashes": [], "faults": [{"inv": 0, "api": api, "class": cls, "when": "before"}]}, "line": line, "max_raises": 1}
+        for order in (("low", "high", "rand:1", "rand:2", "rand:3") if coincident else ("low",)):
+            WC.line_preempt_sweep(ctx, base, PROPS, nontrivial=nontrivial, classes=lambda r, c: ["one-long-preemption-at-a-line"] + classes(r, c), extra_monitors=(mon_c06,),
+                                  limit=ctx.budget.get("sweep_limit", 700), order=order,
+                                  label=f"one long preemption per line of {'/'.join(line)}: {label} ({cls}, {order} id first)")
 
 
 install(globals(), props=("C06",), cases=cases, nontrivial=nontrivial, classes=classes, extra_monitors=(mon_c06,), stages=(_enumerate, _window_stage, _sweep_stage))
